@@ -473,7 +473,7 @@ struct Case {
             inc->last_seen = ts; sd.on_flags(p.flags, p.seq, p.ack);
             if (inc->tracking) sd.on_ack(p.ack, p.sack);
             if (p.raw) sd.on_data(p.seq, p.len);
-            if (!expect_new && (p.flags & F_SYN)) cnt("model:syn-on-tracked-connection");
+            if (!expect_new && (p.flags & F_SYN)) cnt("model:syn-flag-on-tracked-connection");
             expect_closed = inc->finished();
             const bool amb = !inc->c.disciplined || !inc->s.disciplined;
             if (!amb) { if (inc->chunks() > LIM_CHUNKS || inc->bytes() > LIM_BYTES) expect_term = StreamFollower::BUFFERED_DATA; }
@@ -566,7 +566,7 @@ struct Case {
     std::vector<std::pair<Ep, Ep>> key_eps;
 
     void run(long idx) {
-        const bool thorough = st().a.tier == "thorough"; (void)thorough; (void)idx;
+        (void)idx;
         static const u64 kas[] = {1000ull, 250000ull, 1000000ull, 30000000ull, 300000000ull, 3600000000ull};
         int kai = rng.below(7); cfg.set_ka = kai < 6; cfg.ka = cfg.set_ka ? kas[kai] : 300000000ull;
         cfg.attach = rng.chance(35, 100); cfg.tracking = rng.chance(1, 2); cfg.bytes_share = rng.below(3) == 0 ? 0 : rng.below(8);
